@@ -49,7 +49,7 @@ def objOf (o : Opts) (f : FileRec) : Obj :=
   | .dir => .dir (attrOfRec o f) (mtimeOf f)
   | .reg => .file f.data (attrOfRec o f) (mtimeOf f)
   | .symlink => .symlink f.target (linkAttrOfRec o f) (mtimeOf f)
-  | _ => .dev f.major.toNat f.minor.toNat (attrOfRec o f) (mtimeOf f)
+  | _ => .dev (mknodType (metaOf f)) f.major.toNat f.minor.toNat (attrOfRec o f) (mtimeOf f)
 
 /-! ### paths -/
 
